@@ -42,6 +42,7 @@ type Engine struct {
 	immutable map[string]bool
 	immutableSan map[string]bool // sanitized full names of immutable globals
 	aliases      map[string]map[string]*types.Package // package path -> import alias -> package
+	callNames    map[string]bool
 }
 
 func loadEngine(repo string, patterns []string) (*Engine, error) {
@@ -406,4 +407,54 @@ func repoRel(repo, p string) string {
 		return p
 	}
 	return r
+}
+
+
+// knownCallName: does any function / interface method / callback name end in this name
+// (the matching rule of called(), callarg(), ...)?
+func (e *Engine) knownCallName(name string) bool {
+	if e.callNames == nil {
+		e.callNames = map[string]bool{}
+	}
+	if v, ok := e.callNames[name]; ok {
+		return v
+	}
+	ok := name == "funcvalue" || name == "deferred" || strings.HasPrefix(name, "param:")
+	match := func(full string) bool {
+		return full == name || strings.HasSuffix(full, "."+name) || strings.HasSuffix(full, ")."+name)
+	}
+	if !ok {
+		for full, fn := range e.funcs {
+			if match(full) || match(e.shortFuncName(fn)) {
+				ok = true
+				break
+			}
+		}
+	}
+	if !ok {
+		// interface methods: <pkgpath>.<Iface>.<Method>
+		for _, p := range e.allPkgs {
+			if p.Types == nil || ok {
+				continue
+			}
+			sc := p.Types.Scope()
+			for _, n := range sc.Names() {
+				tn, isT := sc.Lookup(n).(*types.TypeName)
+				if !isT {
+					continue
+				}
+				it, isI := tn.Type().Underlying().(*types.Interface)
+				if !isI {
+					continue
+				}
+				for i := 0; i < it.NumMethods(); i++ {
+					if match(p.PkgPath + "." + n + "." + it.Method(i).Name()) {
+						ok = true
+					}
+				}
+			}
+		}
+	}
+	e.callNames[name] = ok
+	return ok
 }
